@@ -45,10 +45,10 @@ def base_consts(**kw):
     return c
 
 
-def harness_cfg(consts, seed, codec="cbor", audit="", concurrency=0, payload="", shared_options=False, clock_base=0):
+def harness_cfg(consts, seed, codec="cbor", audit="", concurrency=0, payload="", shared_options=False, clock_base=0, pin=False):
     return {"Concurrency": concurrency, "NR": consts["NR"], "Writer0": list(consts["Writer0"]), "Lid": list(consts["Lid"]),
             "Fn": consts["Fn"], "Denied": [sorted(d) for d in consts["Denied"]], "Codec": codec, "Seed": seed,
-            "Audit": audit, "Payload": payload, "SharedOptions": shared_options, "ClockBase": clock_base}
+            "Audit": audit, "Payload": payload, "SharedOptions": shared_options, "ClockBase": clock_base, "Pin": pin}
 
 
 def explore(specdir, name, consts, invs, props, workers=NCPU, timeout=1500, simulate=None, seed=1):
@@ -227,7 +227,7 @@ def run_family_l(prop, tier, seed, report, scratch, binpath, plans):
         if not scripts:
             raise Inconclusive("TLC exported no history for " + plan["name"])
         hcfg = harness_cfg(consts, seed, plan.get("codec", "cbor"), plan.get("audit", ""), plan.get("concurrency", 0),
-                           plan.get("payload", ""), plan.get("shared_options", False), plan.get("clock_base", 0))
+                           plan.get("payload", ""), plan.get("shared_options", False), plan.get("clock_base", 0), plan.get("pin", False))
         t1 = time.time()
         try:
             trace = replay(binpath, scratch, plan["name"], hcfg, scripts, plan.get("mode", "last"),
